@@ -102,7 +102,17 @@ func Check(c *Case, r *mon.R, what string) {
 		bind = func(name string) (val.V, bool) { v, ok := scope[name]; return v, ok }
 	}
 	prog.Stmts = append(prog.Stmts, &Stmt{Pipe: c.Pipe})
-	src := Print(prog, Layout{Mode: 0}).Src
+	// the layout varies with the case: unnamed columns are called like their source text, white space included
+	lay := Layout{Mode: 0}
+	if len(c.Instances) > 0 {
+		switch c.Instances[0] % 3 {
+		case 1:
+			lay = Layout{Mode: 1}
+		case 2:
+			lay = gen.LayoutFor(c.Instances[0], 2)
+		}
+	}
+	src := Print(prog, lay).Src
 	sql, err, o := mon.Compile(src, nil)
 	if o.Anomalous() {
 		r.Inconclusive("foreign_compile_anomaly")
